@@ -66,6 +66,16 @@ type expObject struct {
 	fields  []expField
 }
 
+// wantsOption: the model demands an option for at least one field.
+func (e expObject) wantsOption() bool {
+	for _, f := range e.fields {
+		if f.allowed == byOption {
+			return true
+		}
+	}
+	return false
+}
+
 // locate: an object reference pkg.Name matches an object of that package with
 // that name (the enumerated references always use the exact case).
 func locate(schemas ast.Schemas, pkg, name string) (ast.Object, bool) {
@@ -154,13 +164,35 @@ func fieldClass(schemas ast.Schemas, f ast.StructField) string {
 }
 
 func defaultKind(v any) string {
-	switch v.(type) {
+	switch x := v.(type) {
 	case nil:
 		return "none"
 	case []any:
+		if len(x) == 0 {
+			return "empty list"
+		}
 		return "list"
 	case map[string]any:
+		if len(x) == 0 {
+			return "empty map"
+		}
 		return "map"
+	case bool:
+		if !x {
+			return "zero scalar"
+		}
+	case string:
+		if x == "" {
+			return "zero scalar"
+		}
+	case int64:
+		if x == 0 {
+			return "zero scalar"
+		}
+	case float64:
+		if x == 0 {
+			return "zero scalar"
+		}
 	}
 	return "scalar"
 }
